@@ -68,6 +68,19 @@ thread_local! {
     static RT: tokio::runtime::Runtime = tokio::runtime::Builder::new_current_thread().enable_all().build().expect("runtime");
 }
 
+/// every chunk written goes out as <Unsigned32 length, encoded with this library> <chunk>
+struct LengthPrefixed(Vec<u8>);
+impl std::io::Write for LengthPrefixed {
+    fn write(&mut self, b: &[u8]) -> std::io::Result<usize> {
+        Unsigned32::new(b.len() as u32).encode_to(&mut self.0).map_err(|_| std::io::Error::new(std::io::ErrorKind::Other, "prefix"))?;
+        self.0.extend_from_slice(b);
+        Ok(b.len())
+    }
+    fn flush(&mut self) -> std::io::Result<()> {
+        Ok(())
+    }
+}
+
 struct OneOctet(Vec<u8>);
 impl std::io::Write for OneOctet {
     fn write(&mut self, b: &[u8]) -> std::io::Result<usize> {
@@ -832,6 +845,32 @@ fn leaf_enc(t: &mut Toks) -> PResult<String> {
             if !again || w.0 != buf {
                 let _ = write!(out, " WRITERDIFF:{}:{}", again as u8, w.0.len());
             }
+            // ... and through a framing writer that itself encodes a value of this library inside write() (each chunk it is given
+            // goes out behind an Unsigned32 length): a caller's writer may use the library too
+            let r = catch_unwind(AssertUnwindSafe(|| {
+                let mut w = LengthPrefixed(Vec::new());
+                let ok = value_encode(&v, &mut w).is_ok();
+                (ok, w.0)
+            }));
+            match r {
+                Ok((ok, framed)) => {
+                    // strip the prefixes again
+                    let mut plain = Vec::new();
+                    let mut i = 0;
+                    while i + 4 <= framed.len() {
+                        let n = u32::from_be_bytes([framed[i], framed[i + 1], framed[i + 2], framed[i + 3]]) as usize;
+                        if i + 4 + n > framed.len() {
+                            break;
+                        }
+                        plain.extend_from_slice(&framed[i + 4..i + 4 + n]);
+                        i += 4 + n;
+                    }
+                    if !ok || plain != buf {
+                        let _ = write!(out, " WRITERDIFF:nested:{}:{}", ok as u8, plain.len());
+                    }
+                }
+                Err(_) => out.push_str(" WRITERDIFF:nested:panic"),
+            }
             Ok(out)
         }
         Err(_) => Ok("ERR".into()),
@@ -1004,6 +1043,7 @@ pub fn handle(st: &mut State, line: &str) -> String {
             "SE" => crate::stream::encode_1(st, &mut t),
             "SV" => crate::stream::serve(st, &mut t),
             "SVBIG" => crate::stream::serve_big(st, &mut t),
+            "SDN" => crate::stream::decode_n_notime(st, &mut t),
             "CL" => crate::client::run(st, &mut t),
             "TLS" => crate::net::tls_cell(st, &mut t),
             "TLSPLAIN" => crate::net::tls_plain(st, &mut t),
@@ -1044,6 +1084,44 @@ pub fn handle(st: &mut State, line: &str) -> String {
                 let big = codes.iter().filter(|c| c.as_str() == "3f3").count();
                 Ok(format!("GBIG count={} big={} tail={} first1011={} first1012={} first268={} length={}", m.get_avps().len(), big,
                            codes[codes.len().saturating_sub(2)..].join(","), pos(1011), pos(1012), pos(268), m.get_length()))
+            }
+            // TLDROP: a thread whose own thread-local object - created BEFORE the thread first used the library - decodes and
+            // encodes values in its destructor, i.e. while the thread's locals are being torn down
+            "TLDROP" => {
+                struct Session(bool);
+                impl Drop for Session {
+                    fn drop(&mut self) {
+                        let _ = catch_unwind(AssertUnwindSafe(|| {
+                            let mut c = Cursor::new(vec![0x83u8, 0xaa, 0x7e, 0x80, 0, 0, 0, 1]);
+                            let _ = Time::decode_from(&mut c);
+                            let mut c = Cursor::new(vec![0u8, 0, 0, 9, 0, 0, 0, 1]);
+                            let _ = Unsigned64::decode_from(&mut c);
+                            let mut v = Vec::new();
+                            let _ = Unsigned32::new(7).encode_to(&mut v);
+                            let _ = Integer64::new(-7).encode_to(&mut v);
+                            let _ = Float32::new(1.5).encode_to(&mut v);
+                        }));
+                    }
+                }
+                thread_local! { static SESSION: Session = Session(true); }
+                for first in [true, false] {
+                    let h = std::thread::spawn(move || {
+                        if first {
+                            SESSION.with(|s| assert!(s.0));
+                        }
+                        let mut c = Cursor::new(vec![0u8, 0, 0, 5]);
+                        let _ = Unsigned32::decode_from(&mut c);
+                        let mut v = Vec::new();
+                        let _ = Unsigned64::new(5).encode_to(&mut v);
+                        if !first {
+                            SESSION.with(|s| assert!(s.0));
+                        }
+                    });
+                    if h.join().is_err() {
+                        return Ok("TLDROP panicked".into());
+                    }
+                }
+                Ok("OK".into())
             }
             "XM" => run_decode_multi(st, &mut t),
             // XP <dict> <k> <frame>: decode_from on a reader that already stands k octets PAST the end of what it holds
